@@ -2,9 +2,9 @@ SPECIFICATION MCSpec
 CONSTANTS
   BUF = 4
   HEADLOOP = TRUE
-  CARRY = FALSE
+  CARRY = TRUE
   MaxReqs = 2
   MaxBody = 3
   MaxCuts = 3
-INVARIANT Refines
+INVARIANT RefinesExactly
 CHECK_DEADLOCK FALSE
